@@ -77,6 +77,16 @@ Proof.
   - destruct (write_pieces_buf _ _ _ _) as [[? ?] ?]. reflexivity.
 Qed.
 
+Lemma write_stdout_rec_writes E s rec :
+  writes (st_log (fst (write_stdout_rec E s rec))) = (WStdout, rec) :: writes (st_log s).
+Proof.
+  assert (Hc : concat [rec] = rec) by (cbn; apply app_nil_r).
+  unfold write_stdout_rec. destruct (e_mode E) eqn:Em; try (rewrite write_stdout_writes, Hc; reflexivity).
+  destruct (cap <? scratch_size)%nat; [|rewrite write_stdout_writes, Hc; reflexivity].
+  destruct (touch_log E s) as (Hl & _).
+  destruct (write_chunks_buf _ _ _ _) as [[? ?] ?]. cbn [fst st_log set_out add_log]. rewrite Hl. reflexivity.
+Qed.
+
 Lemma child_out_qext E s cg data : qext s (fst (child_out E s cg data)).
 Proof.
   unfold child_out. destruct data as [|b d]; [apply qext_refl|].
@@ -243,23 +253,41 @@ Proof.
 Qed.
 
 (* a statement other than print/printf issues no write; print/printf issues at most one, its own *)
-Lemma step_writes E s o : 
-  writes (st_log (fst (step E s o))) = writes (st_log s) \/
-  exists d ps w, o = Print d ps /\ dest_matches d w /\ writes (st_log (fst (step E s o))) = (w, concat ps) :: writes (st_log s).
+(* the print statements: their destination and the bytes they hand over *)
+Definition op_print (o : op) : option (dest * bytes) :=
+  match o with
+  | Print d ps => Some (d, concat ps)
+  | PrintRec d rec => Some (d, rec)
+  | _ => None
+  end.
+
+Lemma step_print_writes E s d ps wr :
+  (forall s1, writes (st_log (fst (wr s1))) = (WStdout, concat ps) :: writes (st_log s1)) ->
+  writes (st_log (fst (step_print E s d ps wr))) = writes (st_log s) \/
+  exists w, dest_matches d w /\ writes (st_log (fst (step_print E s d ps wr))) = (w, concat ps) :: writes (st_log s).
 Proof.
-  destruct o as [d ps|n|[n|]|c|n|c| |code| |n]; cbn [step].
-  - pose proof (get_output_stream_qext E s d) as H1. destruct (get_output_stream E s d) as [s1 [[|n]|]] eqn:Eg; cbn [fst] in *.
-    + right. exists d, ps, WStdout. split; auto. split; [apply (get_output_stream_target _ _ _ _ _ Eg)|].
-      pose proof (write_stdout_writes E s1 ps) as H2. destruct (write_stdout E s1 ps) as [s2 [|]]; cbn [fst] in *; rewrite H2, (qext_writes _ _ H1); auto.
+  intros Hwr. unfold step_print.
+  pose proof (get_output_stream_qext E s d) as H1. destruct (get_output_stream E s d) as [s1 [[|n]|]] eqn:Eg; cbn [fst] in *.
+    + right. exists WStdout. split; [apply (get_output_stream_target _ _ _ _ _ Eg)|].
+      pose proof (Hwr s1) as H2. destruct (wr s1) as [s2 [|]]; cbn [fst] in *; rewrite H2, (qext_writes _ _ H1); auto.
     + destruct (alookup n (st_outs s1)) as [os|]; cbn [fst]; [|left; apply qext_writes; auto].
       right. set (w := match os_kind os with KFile => WFile n | KCmd => WCmd n end).
-      exists d, ps, w. split; auto. split.
+      exists w. split.
       { destruct (get_output_stream_target _ _ _ _ _ Eg) as (A & B). subst w. destruct (os_kind os); auto. }
       set (s1' := add_log s1 (EvWrite w (concat ps))). pose proof (write_ostream_qext E s1' n os (concat ps)) as H2.
       destruct (write_ostream _ _ _ _ _) as [s2 os']. cbn [fst st_log set_outs] in *.
       rewrite (qext_writes _ _ H2). subst s1'. cbn [st_log add_log]. change (writes (EvWrite w (concat ps) :: st_log s1)) with ((w, concat ps) :: writes (st_log s1)).
       rewrite (qext_writes _ _ H1). auto.
     + left. apply qext_writes; auto.
+Qed.
+
+Lemma step_writes E s o :
+  writes (st_log (fst (step E s o))) = writes (st_log s) \/
+  exists d data w, op_print o = Some (d, data) /\ dest_matches d w /\ writes (st_log (fst (step E s o))) = (w, data) :: writes (st_log s).
+Proof.
+  destruct o as [d ps|n|[n|]|c|n|c| |code| |n|d rec]; cbn [step].
+  - destruct (step_print_writes E s d ps (fun s1 => write_stdout E s1 ps)) as [H|(w & Hm & H)]; [intros; apply write_stdout_writes|left; auto|].
+    right. exists d, (concat ps), w. auto.
   - left. apply qext_writes. destruct (alookup n (st_ins s)) as [i|].
     + destruct (if is_cmd i then _ else _) as [code err]. cbn [fst].
       eapply qext_trans; [|apply qext_same; reflexivity]. eapply qext_trans; [|apply if_print_errorf_qext].
@@ -294,13 +322,18 @@ Proof.
   - left. apply qext_writes. destruct (amem n (st_outs s)); [apply qext_refl|].
     destruct (negb (amem n (st_ins s)) && negb (amem n (st_fs s))); [apply qext_same; auto|].
     apply (qext_trans _ (add_synced s n)); [apply qext_same; auto|apply getline_file_qext].
+  - assert (Hc : concat [rec] = rec) by (cbn; apply app_nil_r).
+    destruct (step_print_writes E s d [rec] (fun s1 => write_stdout_rec E s1 rec)) as [H|(w & Hm & H)];
+      [intros; rewrite Hc; apply write_stdout_rec_writes|left; auto|].
+    right. exists d, rec, w. rewrite Hc in H. auto.
 Qed.
 
 (* evs (oldest first) is a subsequence of the print statements of ops, in order, each with its bytes *)
 Inductive sub_trace : list op -> list (wdest * bytes) -> Prop :=
 | st_done ops : sub_trace ops []
 | st_skip o ops evs : sub_trace ops evs -> sub_trace (o :: ops) evs
-| st_emit d ps w ops evs : dest_matches d w -> sub_trace ops evs -> sub_trace (Print d ps :: ops) ((w, concat ps) :: evs).
+| st_emit o d data w ops evs : op_print o = Some (d, data) -> dest_matches d w -> sub_trace ops evs ->
+    sub_trace (o :: ops) ((w, data) :: evs).
 
 Lemma exec_writes E ops : forall s, exists evs,
   rev (writes (st_log (fst (exec E s ops)))) = rev (writes (st_log s)) ++ evs /\ sub_trace ops evs.
@@ -312,9 +345,9 @@ Proof.
                       rev (writes (st_log s1)) ++ evs /\ sub_trace ops evs).
     { destruct oc; [apply IH| |]; exists []; rewrite app_nil_r; split; auto; constructor. }
     destruct Hrest as (evs & He & Ht).
-    destruct Hs as [Hs|(d & ps & w & -> & Hm & Hs)].
+    destruct Hs as [Hs|(d & data & w & Hop & Hm & Hs)].
     + exists evs. rewrite He, Hs. split; auto. apply st_skip; auto.
-    + exists ((w, concat ps) :: evs). rewrite He, Hs. cbn [rev]. rewrite <- app_assoc. split; auto. apply st_emit; auto.
+    + exists ((w, data) :: evs). rewrite He, Hs. cbn [rev]. rewrite <- app_assoc. split; auto. eapply st_emit; eauto.
 Qed.
 
 (* program order: the writes of a run, oldest first, are print statements of
